@@ -628,6 +628,27 @@ def run_case(ctx, case) -> None:
         saved_prev, view_prev, results_prev = saved_b, view_b, results_b
         record_last = record_b
 
+    # ---- a third cycle the way main.read_data reuses results: the annotated record itself has its antiSMASH
+    #      annotations stripped and the saved results are regenerated onto it ---------------------------------
+    record_c = record_last
+    ok, _ = ctx.guard("strip-crash", case, record_c.strip_antismash_annotations)
+    if ok:
+        previous = {MODULES[short].__name__: AJ.loads(text) for short, text in saved_prev.items()}
+        S.captured = {}
+        try:
+            run_flow(case, record_c, previous)
+        except Exception as err:  # pylint: disable=broad-except
+            ctx.violate("reload-crash", dict(facts0, cycle="strip-and-reuse", **crash_module(err)), case)
+            S.captured = None
+            return
+        S.captured = None
+        ok, view_c = ctx.guard("record-view-crash", case, record_view, record_c)
+        if ok:
+            ctx.count("op:record-features-after-strip-and-reuse")
+            if sorted(view_c) != sorted(view_prev):
+                ctx.violate("record-features-identical", dict(facts0, cycle="strip-and-reuse",
+                                                              **diff_views(view_prev, view_c)), case)
+
     # ---- guards --------------------------------------------------------------------------------
     check_guards(ctx, case, saved_a, record_last, facts0)
 
